@@ -314,7 +314,7 @@ def run_pair(case, res):
     J = check_join(res, A, B, DA, DB, f"independent pair {name}: A=({UA},{PA},{WA}) B=({UB},{PB},{WB})", tags)
     if J is not None:
         res.nontriv(name)
-        if junction == "line" and pa == pb:
+        if junction == "line":
             m = rb.mult(lib.exact_kv(J.knotvector), DA.b)
             if m != 0:
                 res.violation("join_knots", f"{name}: junction knot kept with multiplicity {m} although the curve is smooth there",
